@@ -110,6 +110,18 @@ CHECKS = {
             "The acceptance table encodes the documented policy semantics (RequestClientCert with missing/bad proof is not judged). "
             "Cryptographic forgery beyond omission/substitution is out of reach of an adversary without keys and is not attempted.",
             "DESIGN.md §4 C03"),
+    "C04": ("exploration",
+            "runtime monitoring with an on-path adversary (no keys) that rewrites one logical plaintext handshake message "
+            "consistently in every copy; oracle on both endpoints' HandshakeContext results and negotiated parameters",
+            "Per mode ({ECDHE-cert+client-auth, PSK, ECDHE-PSK} x EMS on/off x hello-verify on/off, resumed x EMS, DTLS 1.3 direct/HRR) and "
+            "per logical message (sender, type, first/second/every occurrence): one bit flip per stratified body position (every position "
+            "in thorough) and ~55 field rewrites (suites dropped/reordered/appended, each extension stripped/edited/list-shortened/reordered, "
+            "unknown extension, randoms, session id, cookie, compression, versions). No endpoint that sent or received the altered message "
+            "may return nil. For the two messages RFC 6347 keeps out of the transcript (cookie-less first ClientHello, HelloVerifyRequest) "
+            "the monitored consequence is that no negotiated parameter differs from the untampered run.",
+            "Only epoch-0 messages can be altered without keys; DTLS 1.3 field rewrites need unfragmented messages (MTU 4000). Runs cut by the "
+            "simnet emission cap (DTLS 1.3 endpoints flooding each other under persistent tampering) are counted, not judged.",
+            "DESIGN.md §4 C04"),
 }
 
 NOT_YET = "monitor not built yet in this session (see DESIGN.md for the planned design)"
